@@ -371,9 +371,19 @@ PROPS = {
         "generated": True,
         "proof_modules": ["GrolProofs.Props.C02", "GrolProofs.Props.C08", "GrolProofs.Precedence"],
         "theorems": ["Grol.C02.witness_statement_starts_with_prefix_operator", "Grol.C02.witness_repeated_associative_operator", "Grol.C08.parser_never_panics", "Grol.C08.printer_never_panics",
-                     "Grol.Generated.precedences_documented"],
-        "suites": ["format"],
-        "rule": _FRONT_RULE + " format suite: one case = one source text; in file mode and in line mode: parse, print (normal, compact, "
+                     "Grol.Generated.precedences_documented",
+                     "Grol.C02.roundtrip_partial", "Grol.C02.roundtrip_streamOf", "Grol.C02.roundtrip_partial_lex", "Grol.RT.gpx_node", "Grol.RT.parse_rendered",
+                     "Grol.C02.outside_fragment_assoc", "Grol.C02.outside_fragment_stmt"],
+        "suites": ["format", "printtokens"],
+        "rule": _FRONT_RULE + " printtokens suite (ties the token-level rendering PrintTokens.progToks, the object of C02.roundtrip_partial, to the code): one case = one "
+                "source text, file mode; when it parses error-free, the REAL printer's output in the 4 print modes (normal, compact, all-parens, compact+all-parens) is lexed by "
+                "the REAL lexer and each token reduced to what an error-free parse reads (type, literal, number class, whitespace-in-front for `(` and `[`); for a tree in the "
+                "fragment fragProg the driver recomputes these tokens from the tree with progToks (any difference = disagreement) and evaluates the theorem's conclusion on the "
+                "observed tokens (the parser model returns the original program); trees outside the fragment are declined (tags outside-<mode> and outside-c:<innermost construct that keeps it out>). Families: the operator-pair "
+                "family of the format suite, every ordered pair of the 21 binary operators in 6 nesting/statement templates and x 7 prefix operators in 4 templates, every ordered "
+                "pair of 29 statement shapes of the fragment x 3 separators (+ a three-statement form), 12000 (thorough 300000) random programs of the fragment grammar with "
+                "redundant and necessary parentheses, 1500 (30000) programs of the general grammar. non-trivial = non-empty program in the fragment in at least one mode."
+                " format suite: one case = one source text; in file mode and in line mode: parse, print (normal, compact, "
                 "all-parens, compact+all-parens), re-parse the normal and the compact text, print again. Families: every ordered pair of the 20 infix "
                 "operators in parent/left-child and parent/right-child position, x 7 prefix and 2 postfix operators, index/call/dot/lambda "
                 "combinations (~40 templates per operator); ~330 hand-picked adjacency, comment, literal and lambda cases; every ordered pair of 41 "
